@@ -377,16 +377,17 @@ class AnsiString:
             # Ignore - nothing to apply
             return
 
+        # Parse the settings first - this may raise, and nothing must have changed by then
+        if not settings:
+            ansi_settings = None
+        else:
+            ansi_settings = _AnsiSettingPoint._scrub_ansi_settings(settings)
+
         if start not in self._fmts:
             self._fmts[start] = _AnsiSettingPoint()
 
         if end not in self._fmts:
             self._fmts[end] = _AnsiSettingPoint()
-
-        if not settings:
-            ansi_settings = None
-        else:
-            ansi_settings = _AnsiSettingPoint._scrub_ansi_settings(settings)
 
         # Settings active at the end index before anything is removed, in order of precedence
         settings_at_end = []
